@@ -30,10 +30,17 @@ Theorem fbig_to_float_subnormal_value_refuted :
   fst (ieee_round F32 MHalfEven (2 ^ 25 + 23) (2 ^ 153)) = 2 ^ 21 + 1.
 Proof. vm_compute. repeat split; reflexivity. Qed.
 
-(** F39 non-binary FBig -> f64 through repr_div: 4899e-7 reaches into_f64_internal with 54 bits *)
+(** F39 (repaired in the fourth round) non-binary FBig -> f64 through repr_div: before the repair
+    4899e-7 reached into_f64_internal with 54 bits *)
 Theorem fbig_to_float_division_refuted :
-  fbig_to_float P64 10 MHalfEven 4899 (-7) = Panic Undocumented /\
+  fbig_to_float_old P64 10 MHalfEven 4899 (-7) = Panic Undocumented /\
   ieee_round F64 MHalfEven 4899 (10 ^ 7) = (4557657753232426611, Gt).
+Proof. vm_compute. repeat split; reflexivity. Qed.
+
+(** ... and the repaired route on the same witness: the correctly rounded double, flag AddOne *)
+Theorem fbig_to_float_division_repaired_witness :
+  fbig_to_float P64 10 MHalfEven 4899 (-7) = Ok (FR 4557657753232426611 (Some AddOne)) /\
+  flag_of_error 1 Gt = Some AddOne.
 Proof. vm_compute. repeat split; reflexivity. Qed.
 
 (** F40 TryFrom<UBig> for f32 refuses 16777218 = 2^24 + 2, which is an f32 *)
